@@ -433,7 +433,8 @@ pub fn att_change(a: &RefState, b: &RefState, s: RefSlot) -> &'static str {
     }
 }
 
-/// Class of one attachment slot's change, e.g. `edge-reparent+attachment-kept[+retarget]`.
+/// Class of one attachment slot's change, e.g. `edge-reparent+attachment-kept` (the dominant edge
+/// field change names the class; secondary field changes are in the case detail, not the class).
 pub fn slot_change(a: &RefState, b: &RefState, s: RefSlot) -> String {
     match s {
         RefSlot::Node(w, n) => format!(
@@ -443,8 +444,8 @@ pub fn slot_change(a: &RefState, b: &RefState, s: RefSlot) -> String {
             inst_ctx(a, b, w)
         ),
         RefSlot::Edge(w, e) => {
-            let (p, m) = edge_change(a, b, w, e);
-            format!("{}+{}{}{}", p, att_change(a, b, s), m, inst_ctx(a, b, w))
+            let (p, _m) = edge_change(a, b, w, e);
+            format!("{}+{}{}", p, att_change(a, b, s), inst_ctx(a, b, w))
         }
     }
 }
@@ -589,16 +590,23 @@ pub enum Verdict {
     Exact,
     /// `Err(typed)`.
     Typed(&'static str),
-    /// Violation signatures (already prefixed with the phase).
-    Bad(Vec<String>),
+    /// Violation signatures (already prefixed with the phase); the flag says whether the state
+    /// root of the replayed state nevertheless equals the target's root.
+    Bad(Vec<String>, bool),
 }
 
 pub struct Eval {
     pub verdict: Verdict,
-    /// Canonical patch ops (as the patch stores them).
-    pub ops: Vec<WarpOp>,
+    /// The patch (canonical ops inside); `None` only when `diff_state` itself panicked.
+    pub patch: Option<WarpTickPatchV1>,
     /// The state after `apply_to_state` when it returned `Ok`.
     pub result: Option<WarpState>,
+}
+
+impl Eval {
+    pub fn ops(&self) -> &[WarpOp] {
+        self.patch.as_ref().map_or(&[], |p| p.ops())
+    }
 }
 
 fn sanitize(msg: &str) -> String {
@@ -624,16 +632,16 @@ pub fn eval_pair(
     real_b: &WarpState,
     root_b: &[u8; 32],
 ) -> Eval {
+    let tags = || flag_names(pair_flags(a, b)).join(",");
     let ops = match mc::catch(|| hooks::tick_patch::diff_state(real_a, real_b)) {
         Ok(o) => o,
         Err(p) => {
             return Eval {
-                verdict: Verdict::Bad(vec![format!(
-                    "diff-apply:panic-in-diff_state:{}:{}",
-                    sanitize(&p),
-                    flag_names(pair_flags(a, b)).join(",")
-                )]),
-                ops: Vec::new(),
+                verdict: Verdict::Bad(
+                    vec![format!("diff-apply:panic-in-diff_state:{}:{}", sanitize(&p), tags())],
+                    false,
+                ),
+                patch: None,
                 result: None,
             }
         }
@@ -646,66 +654,76 @@ pub fn eval_pair(
         vec![],
         ops,
     );
+    let (verdict, result) = apply_and_judge(u, a, real_a, b, root_b, &patch, "diff-apply");
+    Eval {
+        verdict,
+        patch: Some(patch),
+        result,
+    }
+}
+
+/// Apply `patch` to a clone of `real_a` and judge the outcome against the abstract target `b`.
+/// `phase` prefixes the violation signatures.
+pub fn apply_and_judge(
+    u: &Universe,
+    a: &RefState,
+    real_a: &WarpState,
+    b: &RefState,
+    root_b: &[u8; 32],
+    patch: &WarpTickPatchV1,
+    phase: &str,
+) -> (Verdict, Option<WarpState>) {
+    let tags = || flag_names(pair_flags(a, b)).join(",");
     let mut st = real_a.clone();
     let res = mc::catch(|| patch.apply_to_state(&mut st));
-    let ops = patch.ops().to_vec();
     match res {
-        Err(p) => Eval {
-            verdict: Verdict::Bad(vec![format!(
-                "diff-apply:panic-in-apply:{}:{}",
-                sanitize(&p),
-                flag_names(pair_flags(a, b)).join(",")
-            )]),
-            ops,
-            result: None,
-        },
-        Ok(Err(e)) => Eval {
-            verdict: Verdict::Typed(error_variant(&e)),
-            ops,
-            result: None,
-        },
+        Err(p) => (
+            Verdict::Bad(
+                vec![format!("{phase}:panic-in-apply:{}:{}", sanitize(&p), tags())],
+                false,
+            ),
+            None,
+        ),
+        Ok(Err(e)) => (Verdict::Typed(error_variant(&e)), None),
         Ok(Ok(())) => {
             let verdict = match u.coherent(&st) {
                 Err(msg) => {
-                    // try to still name the content discrepancy
                     let mut sigs = vec![format!(
-                        "diff-apply:ok-but-incoherent-store:{}:{}",
+                        "{phase}:ok-but-incoherent-store:{}:{}",
                         sanitize(&msg),
-                        flag_names(pair_flags(a, b)).join(",")
+                        tags()
                     )];
                     if let Ok(got) = u.read(&st) {
                         for s in discrepancy_sigs(a, b, &got) {
-                            sigs.push(format!("diff-apply:{s}"));
+                            sigs.push(format!("{phase}:{s}"));
                         }
                     }
-                    Verdict::Bad(sigs)
+                    Verdict::Bad(sigs, false)
                 }
                 Ok(got) => {
+                    let root = hooks::snapshot::state_root(&st, &u.root_key(b));
                     if &got != b {
                         Verdict::Bad(
                             discrepancy_sigs(a, b, &got)
                                 .into_iter()
-                                .map(|s| format!("diff-apply:{s}"))
+                                .map(|s| format!("{phase}:{s}"))
                                 .collect(),
+                            &root == root_b,
+                        )
+                    } else if &root != root_b {
+                        Verdict::Bad(
+                            vec![format!(
+                                "{phase}:ok-same-content-but-state-root-differs:{}",
+                                tags()
+                            )],
+                            false,
                         )
                     } else {
-                        let root = hooks::snapshot::state_root(&st, &u.root_key(b));
-                        if &root != root_b {
-                            Verdict::Bad(vec![format!(
-                                "diff-apply:ok-same-content-but-state-root-differs:{}",
-                                flag_names(pair_flags(a, b)).join(",")
-                            )])
-                        } else {
-                            Verdict::Exact
-                        }
+                        Verdict::Exact
                     }
                 }
             };
-            Eval {
-                verdict,
-                ops,
-                result: Some(st),
-            }
+            (verdict, Some(st))
         }
     }
 }
@@ -717,6 +735,8 @@ pub fn eval_pair(
 /// Identifies one evaluated case; ordering = "smaller is a better representative".
 #[derive(Clone, Copy, Debug, PartialEq, Eq, PartialOrd, Ord)]
 pub struct CaseId {
+    /// `true` sorts last: prefer representatives in which the state root differs as well.
+    pub root_equal: bool,
     pub distance: u32,
     pub size: u32,
     pub a: u32,
